@@ -20,6 +20,15 @@ REPO = "/repo"
 
 # (property, relative file, old text, new text, substring of the unit expected to fail)
 MUTANTS = [
+    ("C14", "unified_planning/model/walkers/substituter.py",
+     "        IdentityDagWalker.__init__(self, environment, True)\n", "        IdentityDagWalker.__init__(self, environment)\n", "substitute"),
+    ("C14", "unified_planning/model/walkers/quantifier_simplifier.py",
+     "        DagWalker.__init__(self, True)\n", "        DagWalker.__init__(self)\n", "earlier calls"),
+    ("C14", "unified_planning/model/walkers/expression_quantifiers_remover.py",
+     "        IdentityDagWalker.__init__(self, self._env, True)\n", "        IdentityDagWalker.__init__(self, self._env, False)\n", "remove_quantifiers"),
+    ("C16", "unified_planning/model/expression.py",
+     "        tuple_args = tuple(self.auto_promote(*args))\n\n        if len(tuple_args) == 0:\n            return self.TRUE()",
+     "        tuple_args = tuple(self.auto_promote(*args))\n\n        if len(args) == 0:\n            return self.TRUE()", "And/["),
     ("C09", "unified_planning/engines/factory.py",
      "                problem_kind = EngineClass.resulting_problem_kind(\n                    problem_kind, compilation_kind\n                )\n",
      "                EngineClass.resulting_problem_kind(\n                    problem_kind, compilation_kind\n                )\n", "pipeline"),
